@@ -1061,8 +1061,43 @@ func doIBounds(c jcase) {
 	run.Add("izyx-bounds", fmt.Sprintf("(KIBounds %s %s %s)", cpts(c.Pts), cpt3(mn), cpt3(mx)), c, "ibounds/"+ptsKey(c.Pts))
 }
 
+// GET <roi>/partition?batchsize=N (roi.SimplePartition) on a fresh instance holding the spans
+func doRoiPart(c jcase) {
+	base, got, ok := newROI(c.Size, c.Spans)
+	if !ok {
+		fmt.Fprintln(os.Stderr, "roi-partition: POST/GET roi failed")
+		os.Exit(2)
+	}
+	r := dv.Get(fmt.Sprintf("%s/partition?batchsize=%d", base, c.Scale))
+	var rep struct {
+		NumActiveBlocks uint64
+		NumSubvolumes   int32
+		Subvolumes      []struct {
+			MinChunk, MaxChunk        [3]int32
+			TotalBlocks, ActiveBlocks uint64
+		}
+	}
+	if r.Status != 200 || json.Unmarshal(r.Body, &rep) != nil {
+		fmt.Fprintf(os.Stderr, "roi-partition: status %d: %.200s\n", r.Status, r.Body)
+		os.Exit(2)
+	}
+	ss := make([]string, len(rep.Subvolumes))
+	for i, v := range rep.Subvolumes {
+		ss[i] = fmt.Sprintf("(%s,%s,%d,%d)", cpt(v.MinChunk[:]), cpt(v.MaxChunk[:]), v.TotalBlocks, v.ActiveBlocks)
+	}
+	svs := "[]"
+	if len(ss) > 0 {
+		svs = "(svl [" + strings.Join(ss, ";") + "])"
+	}
+	run.Count(fmt.Sprintf("roi-partition:subvolumes=%d", bucket(len(ss))))
+	run.Add("roi-partition", fmt.Sprintf("(KRoiPart %d %s %s %d %d)", c.Scale, cspl(got), svs, rep.NumSubvolumes, rep.NumActiveBlocks), c,
+		fmt.Sprintf("roipart/%d/%v/", c.Scale, c.Size)+runsKey(c.Spans))
+}
+
 func dispatch(c jcase) {
 	switch c.Kind {
+	case "roi-partition":
+		doRoiPart(c)
 	case "within":
 		doWithin(c)
 	case "offset":
@@ -1354,6 +1389,58 @@ func sortPts(ps [][3]int32) {
 	})
 }
 
+// genPartSpans: pairwise disjoint spans in a few rows of a few block layers; the layers are [gap]
+// apart (gap <= batchsize: no layer of the partition is empty).
+func genPartSpans(rng *lib.Rand, nz int, gap func() int32) [][4]int32 {
+	var out [][4]int32
+	z := int32(rng.Pick(-7, -1, 0, 3))
+	for k := 0; k < nz; k++ {
+		y0 := int32(rng.Pick(-3, 0, 2))
+		for r := 1 + rng.Intn(3); r > 0; r-- {
+			y := y0 + int32(rng.Intn(6))
+			dup := false
+			for _, s := range out {
+				if s[0] == z && s[1] == y {
+					dup = true
+				}
+			}
+			if dup {
+				continue
+			}
+			x := int32(rng.Intn(9)) - 5
+			for n := 1 + rng.Intn(2); n > 0; n-- {
+				ln := int32(rng.Intn(6))
+				out = append(out, [4]int32{z, y, x, x + ln})
+				x += ln + 2 + int32(rng.Intn(4))
+			}
+		}
+		z += gap()
+	}
+	return out
+}
+
+func roiPartCases(rng *lib.Rand, mul int) {
+	bs := []int32{8, 8, 8}
+	// corpus: one block; one layer; two adjacent layers; a layer boundary inside the ROI
+	dispatch(jcase{Kind: "roi-partition", Size: bs, Scale: 1, Spans: [][4]int32{{0, 0, 0, 0}}})
+	dispatch(jcase{Kind: "roi-partition", Size: bs, Scale: 4, Spans: [][4]int32{{0, 0, 0, 1}}})
+	dispatch(jcase{Kind: "roi-partition", Size: bs, Scale: 2, Spans: [][4]int32{{-1, -1, -3, 3}, {0, 0, 0, 1}, {1, 5, 3, 9}, {2, 0, -1, -1}}})
+	dispatch(jcase{Kind: "roi-partition", Size: bs, Scale: 3, Spans: [][4]int32{{0, 0, 0, 6}, {0, 1, 2, 2}, {0, 1, 5, 9}, {3, 7, -4, 0}, {4, 0, 0, 0}}})
+	// a layer without any block between two occupied ones (recorded finding C18-roi-partition-empty-layer)
+	dispatch(jcase{Kind: "roi-partition", Size: bs, Scale: 4, Spans: [][4]int32{{0, 0, 0, 1}, {100, 0, 0, 1}}})
+	dispatch(jcase{Kind: "roi-partition", Size: bs, Scale: 2, Spans: [][4]int32{{0, 0, 0, 1}, {1, 5, 3, 9}, {5, 0, 0, 1}}})
+	for i := 0; i < 6*mul; i++ {
+		n := int32(rng.Pick(1, 2, 2, 3, 4))
+		dense := func() int32 { return 1 + int32(rng.Intn(int(n))) }
+		sp := genPartSpans(rng, 1+rng.Intn(4), dense)
+		dispatch(jcase{Kind: "roi-partition", Size: []int32{int32(rng.Pick(4, 8)), 8, int32(rng.Pick(8, 2))}, Scale: int(n), Spans: sp})
+		if i%3 == 0 {
+			sparse := func() int32 { return 2*n + 1 + int32(rng.Intn(5)) }
+			dispatch(jcase{Kind: "roi-partition", Size: bs, Scale: int(n), Spans: genPartSpans(rng, 2+rng.Intn(2), sparse)})
+		}
+	}
+}
+
 func round4(rng *lib.Rand, mul int) {
 	// corpus
 	dispatch(jcase{Kind: "within", Runs: [][4]int32{{-2, 0, -1, 4}}, Pts: [][3]int32{{-3, 0, -1}, {-2, 0, -1}, {1, 0, -1}, {2, 0, -1}, {0, 1, -1}, {0, 0, 0}, {-2, 0, -1}}})
@@ -1401,6 +1488,23 @@ func round4(rng *lib.Rand, mul int) {
 	dispatch(jcase{Kind: "izyx-fit", Pts: [][3]int32{{0, 0, 0}, {1, 0, 0}, {0, 1, 0}, {0, 0, 1}, {5, 5, 1}, {0, 0, 2}}, Bounds: []*int32{nil, nil, nil, nil, i32p(1), i32p(1)}})
 	dispatch(jcase{Kind: "izyx-fit", Pts: [][3]int32{{0, 0, 2}, {0, 0, 0}, {0, 0, 1}}, Bounds: []*int32{nil, nil, nil, nil, nil, i32p(1)}}) // unsorted: the loop stops at the first z above maxz (model only)
 
+	{ // every single bound at 0 and at 1 on the sorted 2x2x2 cube: a `continue` that leaves the loop loses later layers
+		var cube [][3]int32
+		for zc := int32(0); zc < 2; zc++ {
+			for yc := int32(0); yc < 2; yc++ {
+				for xc := int32(0); xc < 2; xc++ {
+					cube = append(cube, [3]int32{xc - 1, yc, zc + 5})
+				}
+			}
+		}
+		for k := 0; k < 6; k++ {
+			for v := int32(0); v < 2; v++ {
+				bd := make([]*int32, 6)
+				bd[k] = i32p(v + []int32{-1, 0, 5}[k/2])
+				dispatch(jcase{Kind: "izyx-fit", Pts: cube, Bounds: bd})
+			}
+		}
+	}
 	// random
 	for i := 0; i < 12*mul; i++ {
 		bs := int32(rng.Pick(8, 1, 3, 32, 5))
@@ -1746,6 +1850,7 @@ func main() {
 	// ---- round 4: RLEs.Within / Offset / Stats and the IZYXSlice operations (own random stream, so
 	// the streams of the older case families stay what they were) ----
 	round4(lib.NewRand(o.Seed+0x52340000), mul)
+	roiPartCases(lib.NewRand(o.Seed+0x52350000), mul)
 
 	// ---- ROI version histories (HTTP): every version against its own spans ----
 	for i := 0; i < 6*mul; i++ {
